@@ -38,8 +38,9 @@ EXPLANATION = "Theorems about process_answer's acceptance path in the channel mo
 STREAMS = [
     simlib.sim_stream("forged", {"forge_prob": 0.5, "flagprobs": {10: 0.5, 4: 0.3, 7: 0.1}, "edns_prob": 0.4, "cache_prob": 0.4},
                       simprops.mon_c05, quick_n=500, thorough_n=12000, quick_ops=40, thorough_ops=120),
+    simlib.cookie_rotate_stream(simprops.mon_c05),
 ]
 
-LEVEL_TEXT = "Proof: Lean 4 theorems that every response accepted by the model's process_answer matched the query id, question (case-sensitively under 0x20 over UDP), passed cookie validation and came from the server's address, and that only accepted responses reach callbacks or the cache; the clause 'on the connection currently assigned' is proved only partially (known finding F9) with a kernel-checked counterexample. Tie: adversarial correspondence stream; monitor: answer markers identify which packet supplied a callback's data."
+LEVEL_TEXT = "Proof: Lean 4 theorems that every response accepted by the model's process_answer matched the query id, question (case-sensitively under 0x20 over UDP), passed cookie validation and came from the server's address, and that only accepted responses reach callbacks or the cache; including 'on the connection the query is currently assigned to' (the pinned tree violated it - F9, repaired); the cookie checks are the RFC 7873 state machine of C17 (Cares.Proto.Cookie), used by the channel model as is. Tie: adversarial correspondence stream; monitor: answer markers identify which packet supplied a callback's data."
 LEVEL_NOTE = "Trusted: Lean kernel; model faithfulness as exercised by the stream; virtual sockets and RNG. Wire-level parsing of the response is C02/C04's business (messages are abstract here)."
 TECHNIQUE = 'Lean 4 proof of acceptance conditions over the channel model + adversarial differential correspondence'
